@@ -19,6 +19,7 @@
 //   peerRequest <c> <id> echo|nosvc Echo|Defer|nometh ok:<p>|garbage
 //   peerError <c> <id>              message of type ERROR
 //   fireDone <c> <p>                the service invokes the kept done-callback of the Defer request with payload p
+//   idstress <c> <n> <k>            n threads x k CallMethod each on client channel c, concurrently (oracle only: ids distinct)
 //   reconn <c>                      client channel: a new connection is handed to the SAME channel object (setConnection)
 //   destroy <c>                     client channel: drop the channel object (~RpcChannel)
 //   iter                            one loop iteration
@@ -491,6 +492,19 @@ static bool interp() {
         g_mtChan = static_cast<int>(c);
         g_pendingIter = true;
         return true;
+      }
+    } else if (op == "idstress" && w.size() == 4 && rc && !ch->server) {
+      // oracle only (not part of the model driver's protocol): n threads issue k calls each, concurrently, on ONE channel;
+      // nothing answers them.  The `iter` lines that follow carry the frames to the peer; every id on the wire must be
+      // distinct ("call ids on a channel are unique even when calls are issued from several threads").
+      int n = atoi(w[2].c_str()), k = atoi(w[3].c_str());
+      if (n >= 1 && n <= 16 && k >= 1 && k <= 100000) {
+        std::vector<std::thread> ts;
+        int first = ch->nextTag;
+        for (int i = 0; i < n; ++i) ts.push_back(std::thread([ch, first, i, k] { for (int j = 0; j < k; ++j) oneCall(ch, first + i * k + j, 0); }));
+        for (size_t i = 0; i < ts.size(); ++i) ts[i].join();
+        ch->nextTag += n * k;
+        ok = true;
       }
     } else if (op == "peerResponse" && w.size() == 4 && ch) {
       RpcMessage m; m.set_type(RESPONSE); m.set_id(strtoull(w[2].c_str(), NULL, 10));
